@@ -4,18 +4,26 @@ import engine_plugin as ep
 from vlib import Case, Stream
 import c07gs as gs
 import c07notify as nt
+import c07cfg as cf
 
 ID = "C07"
-LEAN_MODULES = ['HgVerif.Props.C07', 'HgVerif.Model.Engine', 'HgVerif.Model.Extracted'] + gs.LEAN_MODULES + list(nt.LEAN_MODULES)
-THEOREMS = ['HgVerif.Runs.interleave_independent', 'HgVerif.Runs.intern_history_free', 'HgVerif.Runs.run_is_function'] + gs.THEOREMS + list(nt.THEOREMS)
-CXX_TARGETS = ['hgv_engine'] + gs.CXX_TARGETS + list(nt.CXX_TARGETS)
+LEAN_MODULES = ['HgVerif.Props.C07', 'HgVerif.Model.Engine', 'HgVerif.Model.Extracted'] + gs.LEAN_MODULES + list(nt.LEAN_MODULES) + list(cf.LEAN_MODULES)
+THEOREMS = ['HgVerif.Runs.interleave_independent', 'HgVerif.Runs.intern_history_free', 'HgVerif.Runs.run_is_function'] + gs.THEOREMS + list(nt.THEOREMS) + list(cf.THEOREMS)
+CXX_TARGETS = ['hgv_engine'] + gs.CXX_TARGETS + list(nt.CXX_TARGETS) + list(cf.CXX_TARGETS)
 USES_EXTRACT = True
-RULE = "programs from every engine family, each run (a) once, (b) 1-3 more times from the SAME executor builder, (c) on 2-8 threads concurrently (each thread wiring and running it), and (d) a quarter of them again at the end of the process after all other builds and runs; every trace must be byte-identical to the first and to the model's; non-trivial = >=2 cycles with user code; distinct by program text. " + gs.RULE + " " + nt.RULE
-TRUSTED = ['no ThreadSanitizer build: data races that do not change a trace are invisible to this check'] + list(gs.TRUSTED) + list(nt.TRUSTED)
-ASSUMPTIONS = ["the harness nodes' own tables are read-only during runs; per-run logs and fault counters are thread-local"] + list(gs.ASSUMPTIONS) + list(nt.ASSUMPTIONS)
+RULE = "programs from every engine family, each run (a) once, (b) 1-3 more times from the SAME executor builder, (c) on 2-8 threads concurrently (each thread wiring and running it), and (d) a quarter of them again at the end of the process after all other builds and runs; every trace must be byte-identical to the first and to the model's; non-trivial = >=2 cycles with user code; distinct by program text. " + gs.RULE + " " + nt.RULE + " " + cf.RULE
+TRUSTED = ['no ThreadSanitizer build: data races that do not change a trace are invisible to this check'] + list(gs.TRUSTED) + list(nt.TRUSTED) + list(cf.TRUSTED)
+ASSUMPTIONS = ["the harness nodes' own tables are read-only during runs; per-run logs and fault counters are thread-local"] + list(gs.ASSUMPTIONS) + list(nt.ASSUMPTIONS) + list(cf.ASSUMPTIONS)
 TECHNIQUE = 'Lean 4 proof (interleaving independence of state-owning executors, history-free intern tables) + differential runs: repeat, builder reuse, process history, concurrent threads, all compared with one model trace'
 LEVEL_TEXT = ("Kernel-checked: executors that own their state produce, under every interleaving, the trace they produce alone; registry lookups depend on the key only, not on registration history; the engine model's run is a function of the program (no wall-clock term exists in it); for the GlobalState / record-replay harness layer, modelled as coded: the trace a run records does not depend on what the selected state held before (any prior buffers, any history of runs, copy-backs and seeds), keys a run does not own are untouched, re-running after copy-back is a fixpoint, further executors of one builder observe the same (run_trace_independent_of_prior_state, history_irrelevant, run_preserves_other_keys, rerun_idempotent, reuse_same_trace); the persistent :memory: sink appends by contract (persistent_sink_appends). PARTIAL: that the C++ runtime has no hidden shared mutable state is established only by the differential runs (same builder reused, after other runs, on concurrent threads), not by proof."
-              ' One-shot evaluation notifications (Props/C07Notify.lean, stream notify): the trace of a run does not depend on the runs made earlier in the process or on the thread, also after a run whose notification callback threw (a failed batch is dropped, nothing is carried into the next run); drain order before = FIFO, after = LIFO, re-entrant registrations fire at the same boundary; a thread-local batch buffer is proved to leak across runs (thread_buffer_leaks: the seeded shape).')
+              ' One-shot evaluation notifications (Props/C07Notify.lean, stream notify): the trace of a run does not depend on the runs made earlier in the process or on the thread, also after a run whose notification callback threw (a failed batch is dropped, nothing is carried into the next run); drain order before = FIFO, after = LIFO, re-entrant registrations fire at the same boundary; a thread-local batch buffer is proved to leak across runs (thread_buffer_leaks: the seeded shape).'
+              ' Record/replay configuration (Props/C07Config.lean, stream gsconfig): config() is a function of the entry under its key in the '
+              'store it is given - never of the store\'s address (config_depends_on_contents_only, run_address_free: every re-addressing of a '
+              'history, colliding or not, changes nothing); a build against a new / stack-local / context-owned / stateless store or an object '
+              'it resets, overwrites or clears shows after ANY history what it shows first in a fresh process (step_trace_history_free, '
+              'run_last_history_free), every other build what a fresh store filled from its printed contents shows (reference_step_reproduces: '
+              'the monitor\'s reference); an address-keyed memo of the parsed configuration is proved to leak (addr_memo_leaks_config: the '
+              'seeded shape) while the first step of a process stays right under it (addr_memo_first_step_unaffected).')
 LEVEL_NOTE = 'Trusted: Lean kernel; model tied by correspondence. Data races and allocator effects that leave traces unchanged are outside the claim (named runtime behaviour the model cannot exhibit).'
 
 
@@ -52,7 +60,7 @@ def streams(rng, tier, seed):
             L += (["reset"] if j else []) + q.lines(0)[1:]
         hist.append(Case(L))
     return [Stream("engine-repro", [ec.ENGINE], ec.model_cmd("Engine"), cases + again, timeout=900),
-            Stream("engine-history", [ec.ENGINE], ec.model_cmd("Engine"), hist, timeout=900)] + gs.streams(rng, tier, seed) + nt.streams(rng, tier, seed)
+            Stream("engine-history", [ec.ENGINE], ec.model_cmd("Engine"), hist, timeout=900)] + gs.streams(rng, tier, seed) + nt.streams(rng, tier, seed) + cf.streams(rng, tier, seed)
 
 
 def _option_twin(rng, p):
@@ -112,6 +120,8 @@ def monitor(stream, case, out):
         return gs.monitor(stream, case, out)
     if stream.startswith("notify-"):
         return nt.monitor(stream, case, out)
+    if stream.startswith("gsconfig-"):
+        return cf.monitor(stream, case, out)
     if stream == "engine-history":
         return _monitor_history(case, out)
     bad = []
@@ -143,6 +153,8 @@ def features(stream, case, out):
         return gs.features(stream, case, out)
     if stream.startswith("notify-"):
         return nt.features(stream, case, out)
+    if stream.startswith("gsconfig-"):
+        return cf.features(stream, case, out)
     if stream == "engine-history":
         segs = ec.split_segments(case.lines)
         f = ["history:%d-programs" % len(segs)]
@@ -163,12 +175,16 @@ def nontrivial(stream, case, out):
         return gs.nontrivial(stream, case, out)
     if stream.startswith("notify-"):
         return nt.nontrivial(stream, case, out)
+    if stream.startswith("gsconfig-"):
+        return cf.nontrivial(stream, case, out)
     if stream == "engine-history":
         return sum(1 for l in case.lines if l == "run") >= 2
     return ep.nontrivial(stream, case, [_run_line(case, out)])
 
 
 def valid_case(stream, case, impl_out, model_out):
+    if stream.startswith("gsconfig-"):
+        return cf.valid_case(stream, case, impl_out, model_out)
     if stream.startswith("notify-"):
         f = getattr(nt, "valid_case", None)
         return f(stream, case, impl_out, model_out) if f else True
